@@ -168,3 +168,46 @@ def parseint(r):
     val = int("".join(str(d) for d in e["mag"]) or "0") * (-1 if e["neg"] else 1)
     return ("const R: (%s, usize) = match konst::Parser::new(%s).parse_%s() { Ok((v, p)) => (v, p.start_offset()), Err(_) => panic!() }; format!(\"{:?}\", R)"
             % (ty, ss, ty)), "(%d, %d)" % (val, e["consumed"])
+
+
+def _rs(b):
+    """Rust string literal of UTF-8 bytes (everything escaped)."""
+    return '"' + "".join("\\u{%x}" % ord(ch) for ch in bytes(b).decode("utf-8")) + '"'
+
+
+def _walk(path):
+    out = []
+    for op in path:
+        if op == "rev":
+            out.append("let it = it.rev();")
+        else:
+            out.append("let it = match it.%s() { Some((_, n)) => n, None => panic!(\"witness path ended early\") };" % op)
+    return " ".join(out)
+
+
+def split_const(r):
+    """A split-iterator state reached inside a const block (every step is executed by the const evaluator), then the
+    front item."""
+    if not r["cn"]:
+        return None
+    ctor = {"split": "split", "split_terminator": "split_terminator", "rsplit_terminator": "rsplit_terminator"}[r["kind"]]
+    body = ("const S: &str = %s; const D: &str = %s; const R: Option<&str> = { let it = konst::string::%s(S, D); %s "
+            "match it.next() { Some((p, _)) => Some(p), None => None } }; format!(\"{:?}\", R.map(|x| x.as_bytes().to_vec()))"
+            % (_rs(r["s"]), _rs(r["d"]), ctor, _walk(r["path"])))
+    exp = "None" if "none" in r["next"] else "Some(%s)" % str(list(r["next"]["some"]))
+    return body, exp
+
+
+def chars_const(r):
+    """chars / char_indices inside a const block: the unchecked u32 -> char cast is judged by the const evaluator."""
+    ctor = r["kind"]
+    outs = []
+    for end in ("next", "next_back"):
+        item = "Some((c, _)) => Some(c as u32)" if ctor == "chars" else "Some(((_, c), _)) => Some(c as u32)"
+        body = ("const S: &str = %s; const R: Option<u32> = { let it = konst::string::%s(S); %s match it.%s() { %s, None => None } }; "
+                "format!(\"{:?}\", R)" % (_rs(r["s"]), ctor, _walk(r["path"]), end, item))
+        # a Rev iterator's next is the forward iterator's next_back: the emitted next / next_back are those of the current type
+        e = r[end]
+        exp = "None" if "none" in e else "Some(%d)" % e["some"][1]
+        outs.append((body, exp))
+    return outs
